@@ -249,26 +249,41 @@ Definition provides (ds : list decl) (r : retval) : bool :=
   end.
 
 (* ------------------------------------------------------------------ C19: in-place mutation *)
-(* the values on which the per-field digest is injective: the C08 fragment is a parameter *)
-Section MutationSpec.
-  Variable digest : pyval -> nat.
-  Definition collision (a b : pyval) : Prop := a <> b /\ digest a = digest b.
-
-  (* fields that differ between the inputs as submitted and as the body left them *)
-  Fixpoint changed_fields (a b : inputs) : list string :=
-    match a, b with
-    | (k, x) :: a', (_, y) :: b' => (if Nat.eqb (digest x) (digest y) then [] else [k]) ++ changed_fields a' b'
-    | _, _ => []
-    end.
-  Fixpoint same_shape (a b : inputs) : Prop :=
-    match a, b with
-    | [], [] => True
-    | (k, _) :: a', (k', _) :: b' => k = k' /\ same_shape a' b'
-    | _, _ => False
-    end.
-  Fixpoint fields_equal_or_collide (a b : inputs) : Prop :=
-    match a, b with
-    | (_, x) :: a', (_, y) :: b' => (x = y \/ collision x y) /\ fields_equal_or_collide a' b'
-    | _, _ => True
-    end.
-End MutationSpec.
+(* the body leaves the field names alone; it can only change the objects the fields refer to *)
+Fixpoint same_shape (a b : inputs) : Prop :=
+  match a, b with
+  | [], [] => True
+  | (k, _) :: a', (k', _) :: b' => k = k' /\ same_shape a' b'
+  | _, _ => False
+  end.
+(* every field is unchanged, or it is one of the two ways a hash can miss a change:
+   the encoding does not discriminate the two values, or the hash collides on the encodings *)
+Inductive missed (enc : pyval -> list nat) (H : list nat -> nat) (x y : pyval) : Prop :=
+  | NotDiscriminated : x <> y -> enc x = enc y -> missed enc H x y
+  | Collision : enc x <> enc y -> H (enc x) = H (enc y) -> missed enc H x y.
+Fixpoint unchanged_or_missed (enc : pyval -> list nat) (H : list nat -> nat) (a b : inputs) : Prop :=
+  match a, b with
+  | (_, x) :: a', (_, y) :: b' => (x = y \/ missed enc H x y) /\ unchanged_or_missed enc H a' b'
+  | _, _ => True
+  end.
+(* executable, for the cases: which fields really differ *)
+Fixpoint pyval_eqb (a b : pyval) : bool :=
+  match a, b with
+  | VInt x, VInt y => Nat.eqb x y
+  | VStr x, VStr y => String.eqb x y
+  | VList xs, VList ys =>
+      (fix go (l1 l2 : list pyval) : bool :=
+         match l1, l2 with
+         | [], [] => true
+         | x :: r1, y :: r2 => pyval_eqb x y && go r1 r2
+         | _, _ => false
+         end) xs ys
+  | VArr s1 d1, VArr s2 d2 => list_eqb Nat.eqb s1 s2 && list_eqb Nat.eqb d1 d2
+  | VFile p1 c1, VFile p2 c2 => String.eqb p1 p2 && Nat.eqb c1 c2
+  | _, _ => false
+  end.
+Fixpoint really_changed (a b : inputs) : list string :=
+  match a, b with
+  | (k, x) :: a', (_, y) :: b' => (if pyval_eqb x y then [] else [k]) ++ really_changed a' b'
+  | _, _ => []
+  end.
